@@ -1026,3 +1026,128 @@ impl<P: Protocol> GenericCloud<MockDevice, P, MockSocket, MockTimeSource> {
         self.socket.address().unwrap().port() as usize
     }
 }
+
+// ---- verification hooks (guarded; not compiled unless feature `dswd_vpncloud_verif` is on) ----
+
+#[cfg(feature = "dswd_vpncloud_verif")]
+#[derive(Debug, Clone, PartialEq, Eq, PartialOrd, Ord)]
+pub struct VerifPeer {
+    pub addr: SocketAddr,
+    pub node_id: NodeId,
+    pub has_init: bool,
+    pub timeout: Time,
+    pub peer_timeout: u16,
+    pub algorithm: &'static str,
+    pub addrs: Vec<SocketAddr>,
+}
+
+#[cfg(feature = "dswd_vpncloud_verif")]
+#[derive(Debug, Clone, PartialEq, Eq)]
+pub struct VerifReconnect {
+    pub resolved: Vec<SocketAddr>,
+    pub tries: u16,
+    pub timeout: u16,
+    pub next: Time,
+}
+
+#[cfg(feature = "dswd_vpncloud_verif")]
+impl<P: Protocol>
+    GenericCloud<crate::device::MockDevice, P, crate::net::MockSocket, crate::util::MockTimeSource>
+{
+    pub fn verif_socket(&mut self) -> &mut crate::net::MockSocket {
+        &mut self.socket
+    }
+
+    pub fn verif_device(&mut self) -> &mut crate::device::MockDevice {
+        &mut self.device
+    }
+
+    /// Same as one `WaitResult::Socket` iteration of `run()`; the caller owns the long-lived buffer.
+    pub fn verif_socket_event(&mut self, buffer: &mut MsgBuffer) {
+        self.handle_socket_event(buffer)
+    }
+
+    /// Same as one `WaitResult::Device` iteration of `run()`.
+    pub fn verif_device_event(&mut self, buffer: &mut MsgBuffer) {
+        self.handle_device_event(buffer)
+    }
+
+    pub fn verif_housekeep(&mut self) -> Result<(), Error> {
+        self.housekeep()
+    }
+
+    /// What `run()` sends at shutdown.
+    pub fn verif_send_close(&mut self) {
+        let mut buffer = MsgBuffer::new(SPACE_BEFORE);
+        buffer.clear();
+        self.broadcast_msg(MESSAGE_TYPE_CLOSE, &mut buffer).ok();
+    }
+
+    pub fn verif_peers(&self) -> Vec<VerifPeer> {
+        let mut v: Vec<VerifPeer> = self
+            .peers
+            .iter()
+            .map(|(addr, p)| VerifPeer {
+                addr: *addr,
+                node_id: p.node_id,
+                has_init: p.crypto.has_init(),
+                timeout: p.timeout,
+                peer_timeout: p.peer_timeout,
+                algorithm: p.crypto.algorithm_name(),
+                addrs: p.addrs.iter().copied().collect(),
+            })
+            .collect();
+        v.sort();
+        v
+    }
+
+    pub fn verif_pending(&self) -> Vec<SocketAddr> {
+        let mut v: Vec<SocketAddr> = self.pending_inits.keys().copied().collect();
+        v.sort();
+        v
+    }
+
+    pub fn verif_own_addresses(&self) -> Vec<SocketAddr> {
+        self.own_addresses.iter().copied().collect()
+    }
+
+    pub fn verif_node_id(&self) -> NodeId {
+        self.node_id
+    }
+
+    pub fn verif_next_peers(&self) -> Time {
+        self.next_peers
+    }
+
+    pub fn verif_table(&mut self) -> &mut ClaimTable<crate::util::MockTimeSource> {
+        &mut self.table
+    }
+
+    /// (bytes, packets) of payload dropped for lack of a route, as written to the statistics file
+    pub fn verif_dropped_payload(&self) -> (u64, usize) {
+        (
+            self.traffic.dropped.out_bytes_total + self.traffic.dropped.out_bytes,
+            self.traffic.dropped.out_packets_total + self.traffic.dropped.out_packets,
+        )
+    }
+
+    /// (bytes, packets) counted as invalid protocol traffic
+    pub fn verif_invalid_protocol(&self) -> (u64, usize) {
+        (
+            self.traffic.dropped.in_bytes_total + self.traffic.dropped.in_bytes,
+            self.traffic.dropped.in_packets_total + self.traffic.dropped.in_packets,
+        )
+    }
+
+    pub fn verif_reconnect(&self) -> Vec<VerifReconnect> {
+        self.reconnect_peers
+            .iter()
+            .map(|e| VerifReconnect {
+                resolved: e.resolved.iter().copied().collect(),
+                tries: e.tries,
+                timeout: e.timeout,
+                next: e.next,
+            })
+            .collect()
+    }
+}
